@@ -829,6 +829,93 @@ theorem hanan_path_exists_L_partial (s : Scene) (i j : Nat) (A B : Conn)
     have := VPath_of_reach s pv.1 pv.2 hpv hr
     simpa [xv] using this
 
+/-- a route in the graph: edges may be walked in either direction -/
+inductive UPath (G : List (GV × GV)) : GV → GV → Prop
+  | refl (u : GV) : UPath G u u
+  | step {u w v : GV} : ((u, w) ∈ G ∨ (w, u) ∈ G) → UPath G w v → UPath G u v
+
+theorem UPath.trans {G : List (GV × GV)} {u v w : GV} (h1 : UPath G u v) (h2 : UPath G v w) : UPath G u w := by
+  induction h1 with
+  | refl _ => exact h2
+  | step he _ ih => exact UPath.step he (ih h2)
+
+theorem UPath.symm {G : List (GV × GV)} {u v : GV} (h : UPath G u v) : UPath G v u := by
+  induction h with
+  | refl _ => exact UPath.refl _
+  | @step u w v he _ ih =>
+    exact ih.trans (UPath.step (by rcases he with h | h; exact Or.inr h; exact Or.inl h) (UPath.refl _))
+
+theorem UPath.of_HPath {G : List (GV × GV)} {y : Rat} {u v : GV} (h : HPath G y u v) : UPath G u v := by
+  induction h with
+  | refl u _ => exact UPath.refl u
+  | step he _ _ ih => exact UPath.step (Or.inl he) ih
+
+theorem UPath.of_VPath {G : List (GV × GV)} {x : Rat} {u v : GV} (h : VPath G x u v) : UPath G u v := by
+  induction h with
+  | refl u _ => exact UPath.refl u
+  | step he _ _ ih => exact UPath.step (Or.inl he) ih
+
+/-- one leg: between two breakpoints of a horizontal line, in either order -/
+theorem leg_h (s : Scene) (p : Seg × List LV) (hl : p ∈ s.lines.hs) (a b : BP)
+    (ha : a ∈ toBPs (dirsX s.fixDirs) p.2) (hb : b ∈ toBPs (dirsX s.fixDirs) p.2) (hne : a.t ≠ b.t)
+    (fa : a.k.isConn = true → (if a.t < b.t then a.up else a.dn) = true)
+    (fb : b.k.isConn = true → (if a.t < b.t then b.dn else b.up) = true)
+    (hmid : ∀ c ∈ toBPs (dirsX s.fixDirs) p.2, (a.t < c.t ∧ c.t < b.t) ∨ (b.t < c.t ∧ c.t < a.t) → c.k.isConn = false) :
+    UPath s.graph ⟨a.t, p.1.p, a.k⟩ ⟨b.t, p.1.p, b.k⟩ := by
+  by_cases hlt : a.t < b.t
+  · simp only [hlt, if_true] at fa fb
+    exact UPath.of_HPath (line_path_h s p.1 p.2 hl a b ha hb hlt fa fb (fun c hc h1 h2 => hmid c hc (Or.inl ⟨h1, h2⟩)))
+  · have hgt : b.t < a.t := by grind
+    simp only [hlt, if_false] at fa fb
+    exact (UPath.of_HPath (line_path_h s p.1 p.2 hl b a hb ha hgt fb fa
+      (fun c hc h1 h2 => hmid c hc (Or.inr ⟨h1, h2⟩)))).symm
+
+theorem leg_v (s : Scene) (p : Seg × List LV) (hl : p ∈ s.lines.vs) (a b : BP)
+    (ha : a ∈ toBPs (dirsY s.fixDirs) p.2) (hb : b ∈ toBPs (dirsY s.fixDirs) p.2) (hne : a.t ≠ b.t)
+    (fa : a.k.isConn = true → (if a.t < b.t then a.up else a.dn) = true)
+    (fb : b.k.isConn = true → (if a.t < b.t then b.dn else b.up) = true)
+    (hmid : ∀ c ∈ toBPs (dirsY s.fixDirs) p.2, (a.t < c.t ∧ c.t < b.t) ∨ (b.t < c.t ∧ c.t < a.t) → c.k.isConn = false) :
+    UPath s.graph ⟨p.1.p, a.t, a.k⟩ ⟨p.1.p, b.t, b.k⟩ := by
+  by_cases hlt : a.t < b.t
+  · simp only [hlt, if_true] at fa fb
+    exact UPath.of_VPath (line_path_v s p.1 p.2 hl a b ha hb hlt fa fb (fun c hc h1 h2 => hmid c hc (Or.inl ⟨h1, h2⟩)))
+  · have hgt : b.t < a.t := by grind
+    simp only [hlt, if_false] at fa fb
+    exact (UPath.of_VPath (line_path_v s p.1 p.2 hl b a hb ha hgt fb fa
+      (fun c hc h1 h2 => hmid c hc (Or.inr ⟨h1, h2⟩)))).symm
+
+/-- **One bend, general form.**  A horizontal line `ph` and a vertical line `pv` of the model that cross; `a`
+    a breakpoint of `ph`, `b` a breakpoint of `pv`, both away from the crossing point; the vertex the two
+    lines share at the crossing is a dummy vertex; on both legs only dummy vertices lie strictly between the
+    end of the leg and the crossing; a connector end point at the end of a leg may be left towards the
+    crossing.  Then the graph contains the route `a` — crossing — `b` (edges walked in either direction):
+    every orthogonal two-leg polyline along lines of the model, bending where they cross, is a route in the
+    graph, in all four orientations.  Together with `line_path_*` (no bend) this reduces the Hanan statement
+    to plane geometry: that some optimal path consists of such legs. -/
+theorem bend_path (s : Scene) (ph pv : Seg × List LV) (hh : ph ∈ s.lines.hs) (hv : pv ∈ s.lines.vs)
+    (hc : crosses ph.1 pv.1 = true)
+    (hnode : ∀ k, (⟨pv.1.p, .conn k⟩ : LV) ∉ ph.2)
+    (a b : BP) (ha : a ∈ toBPs (dirsX s.fixDirs) ph.2) (hb : b ∈ toBPs (dirsY s.fixDirs) pv.2)
+    (hane : a.t ≠ pv.1.p) (hbne : b.t ≠ ph.1.p)
+    (fa : a.k.isConn = true → (if a.t < pv.1.p then a.up else a.dn) = true)
+    (fb : b.k.isConn = true → (if ph.1.p < b.t then b.dn else b.up) = true)
+    (hmidh : ∀ c ∈ toBPs (dirsX s.fixDirs) ph.2,
+      (a.t < c.t ∧ c.t < pv.1.p) ∨ (pv.1.p < c.t ∧ c.t < a.t) → c.k.isConn = false)
+    (hmidv : ∀ c ∈ toBPs (dirsY s.fixDirs) pv.2,
+      (ph.1.p < c.t ∧ c.t < b.t) ∨ (b.t < c.t ∧ c.t < ph.1.p) → c.k.isConn = false) :
+    UPath s.graph ⟨a.t, ph.1.p, a.k⟩ ⟨pv.1.p, b.t, b.k⟩ := by
+  obtain ⟨k, hk1, hk2⟩ := crossing_shared s ph pv hh hv hc
+  have hkn : k = .node := by
+    cases k with
+    | node => rfl
+    | conn k' => exact absurd hk1 (hnode k')
+  subst hkn
+  have hcx := mem_toBPs_of_mem (dirs := dirsX s.fixDirs) hk1
+  have hcy := mem_toBPs_of_mem (dirs := dirsY s.fixDirs) hk2
+  have l1 := leg_h s ph hh a _ ha hcx hane fa (fun h => by simp [VK.isConn] at h) hmidh
+  have l2 := leg_v s pv hv _ b hcy hb (fun e => hbne e.symm) (fun h => by simp [VK.isConn] at h) fb hmidv
+  exact l1.trans l2
+
 /-! ### non-vacuity: a closed scene (one routing box, one connector with a restricted source) -/
 
 /-- box [2,4]×[2,4]; source (0,3) may only be left to the Right, target (6,3) in all directions -/
